@@ -56,3 +56,10 @@ claim("C06", "DESIGN.md 5/C06",
       "all characters symbolic over the adversarial alphabet) are symbolic, for both column widths the tool uses; "
       "every output line must be the input line with blanks inserted only directly after the key's ':' - which in "
       "every concrete replay is cross-checked with the real json.loads. 190 cases, each 'Confirmed over all paths'.")
+
+claim("C12", "DESIGN.md 5/C12",
+      "The real main() is executed for --json --clean and --file --clean in an in-memory world in which the step at "
+      "which an output operation fails (open, write, flush, close, print) is a symbolic variable, as are --clean, the "
+      "log's severity class and hidden/report flags (so that it may be filtered out); decodable, truncated and junk "
+      "inputs. Assertion over the recorded event list: the input is removed iff --clean was given, the log was "
+      "selected and decoded, and its output was emitted completely without fault - and only after that.")
